@@ -24,7 +24,9 @@ OPS = {
             inv=fq2inv, one=(1, 0), comps=lambda a: [a[1], a[0]]),
 }
 
-def search(g, want, cap):
+HALF_TOP = ((Q - 1) // 2) >> 368          # 0x0d00: leading 16 bits of the sort-flag threshold (q-1)/2
+
+def search(g, want, cap, classes=("hi", "lo")):
     o = OPS[g]; mul, sqr, sub, add = o["mul"], o["sqr"], o["sub"], o["add"]
     G = g1_gen() if g == 1 else g2_gen()
     gx, gy = G
@@ -34,7 +36,7 @@ def search(g, want, cap):
     P2 = c.add(G, G)
     X, Y, Z = P2[0], P2[1], o["one"]
     names = ["x", "y"] if g == 1 else ["x.c1", "x.c0", "y.c1", "y.c0"]
-    found = {n + ":" + t: [] for n in names for t in ("hi", "lo")}
+    found = {n + ":" + t: [] for n in names for t in classes if t != "half" or n.startswith("y")}
     k = 2
     BLK = 2000
     while k < cap and any(len(v) < want for v in found.values()):
@@ -64,15 +66,26 @@ def search(g, want, cap):
             comps = o["comps"](ax) + o["comps"](ay)
             for n, cval in zip(names, comps):
                 top = cval >> 368
-                if top == 0x1a01 and len(found[n + ":hi"]) < want:
+                if top == 0x1a01 and "hi" in classes and len(found[n + ":hi"]) < want:
                     found[n + ":hi"].append(kk)
-                elif top == 0 and len(found[n + ":lo"]) < want:
+                elif top == 0 and "lo" in classes and len(found[n + ":lo"]) < want:
                     found[n + ":lo"].append(kk)
+                elif top == HALF_TOP and (n + ":half") in found and len(found[n + ":half"]) < want:
+                    found[n + ":half"].append(kk)
         print(g, k, {a: len(b) for a, b in found.items()}, file=sys.stderr)
     return found
 
 if __name__ == "__main__":
-    out = {"1": search(1, 3, 1200000), "2": search(2, 2, 1200000)}
     p = os.path.join(os.path.dirname(os.path.abspath(__file__)), "..", "lib", "data", "prefix_points.json")
+    if sys.argv[1:] == ["--half"]:
+        # added later: y-coordinates that agree with (q-1)/2 on their leading 16 bits (1 point in 6657), where the sort
+        # flag of the compressed encoding is decided by the lower bits only; merged into the existing file
+        out = json.load(open(p))
+        out["1"].update(search(1, 4, 400000, classes=("half",)))
+        out["2"].update(search(2, 3, 400000, classes=("half",)))
+        json.dump(out, open(p, "w"), indent=1, sort_keys=True)
+        print("merged", p)
+        sys.exit(0)
+    out = {"1": search(1, 3, 1200000), "2": search(2, 2, 1200000)}
     json.dump(out, open(p, "w"), indent=1, sort_keys=True)
     print("written", p)
